@@ -46,6 +46,8 @@ case_strategy = st.fixed_dictionaries({
     "shift": st.sampled_from([1.0, 100.0, -1000.0, 1e4]),
     "k": st.sampled_from([-3.0, -1.0, 0.5, 2.0, 7.0]),
     "files": st.sampled_from(["none", "none", "plain", "compressed"]),
+    # also run the BANE command line on the same file (default output names) and compare its files with the API's maps
+    "cli": st.sampled_from([False, False, True]),
 })
 
 
@@ -215,6 +217,29 @@ def check_case(c):
                             res.bad("compressed-file-values", "%s: expanding %s differs from the returned map by %.3g on "
                                     "complete grid cells" % (what, os.path.basename(fn), float(np.max(np.abs(a_ - b_)))), **tags)
             res.label("files-" + files)
+        # ---- the BANE command line gives the same maps (2-D inputs; default output names next to the image)
+        if c.get("cli") and c["ndim"] == 2 and not res.violations:
+            from AegeanTools.CLI import BANE as bane_cli
+            argv = [path, "--grid", str(grid), str(grid), "--box", str(box), str(box), "--cores", str(cores)]
+            if stripes is not None:
+                argv += ["--stripes", str(stripes)]
+            if not c["mask"]:
+                argv.append("--nomask")
+            rc = bane_cli.main(argv)
+            bs = c["bscale"] or 1.0
+            for name, arr in (("bkg", bkg), ("rms", rms)):
+                fn = os.path.join(d, "im_%s.fits" % name)
+                if rc != 0 or not os.path.exists(fn):
+                    res.bad("cli-output-missing", "%s: BANE %s returned %r and im_%s.fits %s" % (
+                        what, " ".join(argv[1:]), rc, name, "exists" if os.path.exists(fn) else "was not written"), **tags)
+                    break
+                with fits.open(fn, do_not_scale_image_data=True) as hl:
+                    raw = np.asarray(hl[0].data, dtype=np.float64)
+                if raw.shape != arr.shape or not np.allclose(raw * bs, arr, rtol=2e-6, atol=1e-30, equal_nan=True):
+                    res.bad("cli-maps-differ", "%s: the %s map written by the BANE command line differs from filter_image's" % (
+                        what, name), **tags)
+                    break
+            res.label("cli")
         # ---- metamorphic relations (continuous-valued data only)
         if c["kind"] != "constant" and c["relation"] != "none":
             c2 = c
